@@ -199,6 +199,11 @@ def do_action(case, ctx, site, action):
         cid = action[1]
         ctx.xlog.append(("register", "c:" + cid, site))
         case.addCleanup(_cleanup, case, ctx, cid)
+    elif op == "cleanup_kw":
+        cid = action[1]
+        ctx.xlog.append(("register", "c:" + cid, site))
+        # keyword arguments are passed through to the cleanup, whatever they are called
+        case.addCleanup(_cleanup_kw, case, ctx, cid, fn=1, result=3)
     elif op == "patch":
         # ("patch", attr, value): attr "existing" exists, anything else is missing
         ctx.xlog.append(("patch", action[1], action[2], site))
@@ -218,6 +223,12 @@ def _cleanup(case, ctx, cid):
     ctx.xlog.append(("run", stage))
     run_actions(case, ctx, stage)
     perform(case, ctx, stage, ctx.decide(stage))
+
+
+def _cleanup_kw(case, ctx, cid, fn=None, result=None):
+    if (fn, result) != (1, 3):
+        ctx.xlog.append(("bad-kwargs", cid, (fn, result)))
+    return _cleanup(case, ctx, cid)
 
 
 _CLASS_CACHE = {}
@@ -337,7 +348,7 @@ class ModelRun:
 
     def actions(self, site):
         for a in self.config.actions.get(site, ()):
-            if a[0] == "cleanup":
+            if a[0] in ("cleanup", "cleanup_kw"):
                 self.stack.append(("c", a[1]))
             elif a[0] == "patch":
                 attr, value = a[1], a[2]
